@@ -417,6 +417,44 @@ def shared_user_model_case(out: Outcome, rng) -> None:
     out.case({"shared_user_model": True, "k": k})
 
 
+CONTRAST = {"DDM": ({"warning_level": 0.5, "drift_level": 1.0}, {"warning_level": 3.0, "drift_level": 6.0}),
+            "RDDM": ({"warning_level": 0.5, "drift_level": 1.0, "min_concept_size": 10}, {"warning_level": 2.5, "drift_level": 5.0, "min_concept_size": 40}),
+            "EDDM": ({"alpha": 0.99, "beta": 0.98, "level": 0.5, "min_num_misclassified_instances": 2}, {"alpha": 0.6, "beta": 0.3, "level": 3.0, "min_num_misclassified_instances": 2}),
+            "ECDDWT": ({"lambda_": 0.05, "average_run_length": 100, "warning_level": 0.2}, {"lambda_": 0.9, "average_run_length": 1000, "warning_level": 0.8}),
+            "HDDMA": ({"alpha_d": 0.0005, "alpha_w": 0.001}, {"alpha_d": 0.2, "alpha_w": 0.6}), "HDDMW": ({"alpha_d": 0.0005, "alpha_w": 0.001, "lambda_": 0.02}, {"alpha_d": 0.2, "alpha_w": 0.6, "lambda_": 0.6}),
+            "ADWIN": ({"clock": 1, "delta": 0.0005, "m": 5, "min_window_size": 1}, {"clock": 1, "delta": 0.6, "m": 2, "min_window_size": 3}),
+            "STEPD": ({"alpha_d": 0.0005, "alpha_w": 0.001}, {"alpha_d": 0.2, "alpha_w": 0.6}),
+            "CUSUM": ({"lambda_": 0.5, "delta": 0.0}, {"lambda_": 30.0, "delta": 0.8}), "PageHinkley": ({"lambda_": 0.5, "delta": 0.0, "alpha": 0.5}, {"lambda_": 30.0, "delta": 0.8, "alpha": 0.9999}),
+            "GeometricMovingAverage": ({"lambda_": 0.1, "alpha": 0.2}, {"lambda_": 3.0, "alpha": 0.99}),
+            "BOCD": ({"hazard": 0.3, "prior_var": 0.5, "data_var": 0.3}, {"hazard": 0.005, "prior_var": 4.0, "data_var": 2.0})}
+
+
+def contrasting_configurations(out: Outcome, rng, runners: list) -> None:
+    """two instances of one class with CONTRASTING parameters (both ends of each parameter's range) and a short warm-up, one after the other and the other way round in the same
+    process on the same stream: anything one instance leaves behind for the class (a memo keyed by less than it depends on) shows in the other's outputs, which are compared
+    with its own model run (and, on a difference, with the same detector alone in a fresh interpreter)"""
+    for cls, (pa, pb) in CONTRAST.items():
+        mn = {} if cls == "EDDM" else {"min_num_instances": rng.choice([2, 3, 5])}
+        xs = gen.stream_for(rng, cls, 40) + [v for v in gen.stream_for(rng, cls, 60)]
+        if cls in dets.REAL_VALUED:
+            xs = xs[:50] + [abs(v) + 6.0 if cls == "ADWIN" else v + 6.0 for v in xs[50:]]
+        elif cls in dets.BINARY_ONLY:
+            # (a quiet start with isolated errors: the first verdicts fall where step-dependent quantities - the transient of an EWMA's variance, 1/t terms - still matter)
+            xs = [0, 0, 0, 0, 0, 1, 0, 0, 1, 1, 0, 1, 0, 0, 0, 1] + xs[16:50] + [1 if rng.random() < 0.8 else 0 for _ in xs[50:]]
+        for first, second in ((pa, pb), (pb, pa)):
+            for k_i, prm in enumerate((first, second)):
+                r = dets.Runner("a", cls, {**prm, **mn})
+                if r.det is None:
+                    continue
+                for x in xs:
+                    r.update(x)
+                    if r.err is not None:
+                        break
+                if k_i == 1:
+                    runners.append(r)       # the SECOND instance of the pair is the one whose trace is judged
+        out.case({"contrasting_configurations": cls})
+
+
 def run(out: Outcome) -> None:
     rng = rng_for(out.seed, "C16")
     thorough = out.tier == "thorough"
@@ -448,6 +486,7 @@ def run(out: Outcome) -> None:
     for c in dets.CLASSES:
         for _ in range(3 if thorough else 1):
             sparse_observation_case(out, rng, c, runners)
+    contrasting_configurations(out, rng, runners)
     shared_user_model_case(out, rng)
     interpreter_variants(out, rng, [c for c in dets.CLASSES if c != "KSWIN"])
     heap_scenarios(out, rng, 60 if thorough else 20)
